@@ -20,6 +20,7 @@ func (mgr *Manager) EvalModifiers(target key.TargetID) *info.ModifierState {
 
 	counts := make(map[model.StatusType]int)
 	flagSet := make(map[model.BehaviorFlag]struct{})
+	flags := make([]model.BehaviorFlag, 0, 4) // deduplicated, in order of first appearance
 	mods := make([]info.ModifierChangeSet, 0, len(mgr.targets[target]))
 
 	for _, mod := range mgr.targets[target] {
@@ -37,7 +38,10 @@ func (mgr *Manager) EvalModifiers(target key.TargetID) *info.ModifierState {
 
 		counts[mod.statusType] += 1
 		for _, flag := range mod.flags {
-			flagSet[flag] = struct{}{}
+			if _, seen := flagSet[flag]; !seen {
+				flagSet[flag] = struct{}{}
+				flags = append(flags, flag)
+			}
 		}
 
 		mods = append(mods, info.ModifierChangeSet{
@@ -54,16 +58,6 @@ func (mgr *Manager) EvalModifiers(target key.TargetID) *info.ModifierState {
 		Weakness:  totalWeakness,
 		Modifiers: mods,
 		Counts:    counts,
-		Flags:     toList(flagSet),
+		Flags:     flags,
 	}
-}
-
-func toList[T comparable](m map[T]struct{}) []T {
-	out := make([]T, len(m))
-	i := 0
-	for k := range m {
-		out[i] = k
-		i++
-	}
-	return out
 }
